@@ -141,10 +141,15 @@ macro_rules! fixed_table_harness {
             match M::from_nonzero_fixed_point_probabilities(&t[..], INFER) {
                 Err(()) => assert!(!valid, "C19: valid fixed-point table refused (inferring the last probability must work at every precision)"),
                 Ok(m) => {
-                    assert!(valid, "C19: invalid fixed-point table accepted");
+                    // independent assertion groups (kx::group): 0 acceptance, 1 model contract of whatever was accepted, 2 table rows / view
+                    let grp = group(3);
+                    if grp == 0 { assert!(valid, "C19: invalid fixed-point table accepted"); return; }
                     let n = LEN + INFER as usize;
-                    assert!(m.support_size() == n, "C03: support size differs from the number of table entries");
-                    check_contiguous_model::<_, P>(&m, n);
+                    if grp == 1 {
+                        assert!(m.support_size() == n, "C03: support size differs from the number of table entries");
+                        check_contiguous_model::<_, P>(&m, n);
+                        return;
+                    }
                     let i: usize = any(); assume(i < n);
                     let mut it = m.symbol_table();
                     let mut k = 0; let mut row = it.next(); while k < i { row = it.next(); k += 1; }
@@ -284,9 +289,12 @@ pub fn lazy_vs_eager_f32_n3_p8() {
     assert!(e.is_ok() == l.is_ok(), "C05/C19: lazy and eager constructors disagree on accepting the table");
     if let (Ok(e), Ok(l)) = (e, l) {
         let s: usize = any();
-        assert!(l.left_cumulative_and_probability(s) == e.left_cumulative_and_probability(s), "C05: lazy model differs from eager model (encoder view)");
         let q: u8 = any();
-        assert!(l.quantile_function(q) == e.quantile_function(q), "C05: lazy model differs from eager model (decoder view)");
+        if group(2) == 0 {
+            assert!(l.left_cumulative_and_probability(s) == e.left_cumulative_and_probability(s), "C05: lazy model differs from eager model (encoder view)");
+            assert!(l.quantile_function(q) == e.quantile_function(q), "C05: lazy model differs from eager model (decoder view)");
+            return;
+        }
     }
 }
 
